@@ -2284,7 +2284,18 @@ class FTPShell(FTPAnonymousShell):
     def makeDirectory(self, path):
         p = self._path(path)
         try:
-            p.makedirs()
+            # Like makedirs(), but never look at, or create, anything above
+            # the root of this shell (os.makedirs walks up until it finds an
+            # existing directory, wherever that is).
+            missing = []
+            node = p
+            while node != self.filesystemRoot and not os.path.isdir(node.path):
+                missing.append(node)
+                node = node.parent()
+            if not missing:
+                raise OSError(errno.EEXIST, os.strerror(errno.EEXIST), p.path)
+            for node in reversed(missing):
+                os.mkdir(node.path)
         except OSError as e:
             return errnoToFailure(e.errno, path)
         except BaseException:
